@@ -10,6 +10,7 @@ import layoutgen as G
 CFG = "INIT Init\nNEXT Next\nINVARIANT Report\nINVARIANT Progress\nCHECK_DEADLOCK FALSE\n"
 CFG_MC = ("INIT Init\nNEXT Next\nINVARIANT ColOK\nINVARIANT ModesOK\nINVARIANT NormShrinks\n"
           "INVARIANT Done\nPROPERTY Decreasing\nCHECK_DEADLOCK FALSE\n")
+NEXT_LINE = 'forced-break-on-following-line'
 HLF = 'hardline-in-flat-group'
 
 
@@ -169,7 +170,7 @@ def fixed_canaries(u):
         u.cid += 1
         c = {'id': u.cid, 'W': W, 'fn': 1, 'fd': 1, 'smart': True, 'nodes': nodes, 'root': root,
              'obs': obs, 'ctxt': [], 'model': False, 'term': [], 'c05': False, 'c06': False,
-             'strict': True, 'diag': False, 'canary': why}
+             'strict': True, 'diag': False, 'rnl': False, 'canary': why}
         c.update(flags)
         out.append(c)
 
@@ -466,7 +467,7 @@ def account(chk, u, rule):
 
 def check_clause(chk, args, prop, flag, clause):
     q = chk.tier == 'quick'
-    unjudged = n_cases = n_rej = 0
+    unjudged = n_cases = n_rej = n_known = 0
     for part, u in enumerate(universe_parts(chk, classic=True, quick_sizes=5, thorough_sizes=6,
                                             n_random=600 if q else 8000, n_big=30 if q else 400,
                                             flags={'strict': False, flag: True})):
@@ -475,6 +476,19 @@ def check_clause(chk, args, prop, flag, clause):
         acc, rejected = judge_core(chk, u, prop, {flag: True}, part=part)
         n_cases += len(u.cases)
         n_rej += len(rejected)
+        if rejected and prop == 'C06':
+            # the recorded deviation: under the smart strategy an always_break that normalisation cannot hoist (below
+            # annotate / flat_choice / fill / align) and that starts on a FOLLOWING deeper line also breaks the group
+            v3 = rerun(chk, rejected, 'next-line%d' % part, rnl=True)
+            kf = chk.match_finding('C06.break', NEXT_LINE)
+            still = []
+            for c in rejected:
+                if kf and any(a[2] == 'obs' for a in v3['ACCEPT'].get(c['id'], [])):
+                    chk.known(kf)
+                    n_known += 1
+                else:
+                    still.append(c)
+            rejected = still
         if rejected:
             v2 = rerun(chk, rejected, 'clause-off%d' % part, **{flag: False, 'diag': True})
             for c in rejected:
@@ -490,7 +504,7 @@ def check_clause(chk, args, prop, flag, clause):
                 'x widths x dyadic ribbon fractions x {smart, fast}; non-trivial = the document contains a '
                 'line/softline; distinct by (document, width, ribbon, strategy)')
     chk.cov['unjudged_not_a_layout'] = unjudged
-    chk.stage('verdict', accepted=n_cases - n_rej, unjudged=unjudged, violations=len(chk.violations))
+    chk.stage('verdict', accepted=n_cases - n_rej, known_finding=n_known, unjudged=unjudged, violations=len(chk.violations))
     if prop == 'C06':
         import oneline_check
         oneline_check.run(chk)
